@@ -308,7 +308,7 @@ def truncatewords(val: str, num: Any = 15, end: str = "...") -> str:
         return val
 
     if len(words) < num:
-        return " ".join(words)
+        return val
 
     return " ".join(words[:num]) + end
 
